@@ -311,6 +311,41 @@ def run(ctx):
                        f"the torch flow is evaluated with autograd enabled (line {bad[0] if bad else ''}) and the result is handed to xp.asarray: a tensor that requires grad "
                        "cannot be converted by NumPy or JAX (RuntimeError: Can't call numpy() on Tensor that requires grad)")
         ctx.floor("torch flow output methods", n_m, 5)
+    cache_rule(ctx)
+
+
+STATE_READERS = {"default_dtype", "get_default_dtype", "default_device", "get_default_device"}
+MEMOISERS = {"lru_cache", "cache", "cached_property", "memoize", "memoise"}
+
+
+def cache_rule(ctx):
+    """C15.cache: the default floating-point width of torch / jax is run-time state
+    (torch.set_default_dtype, jax_enable_x64); a memoised lookup freezes the first
+    answer for the rest of the process, and later populations built without an
+    explicit dtype are silently cast to the stale width."""
+    repo = ctx.repo
+    bad, n = [], 0
+    for f in repo.all_functions():
+        n += 1
+        decos = set()
+        for d in f.node.decorator_list:
+            t = d.func if isinstance(d, ast.Call) else d
+            nm = t.attr if isinstance(t, ast.Attribute) else (t.id if isinstance(t, ast.Name) else None)
+            if nm:
+                decos.add(nm)
+        if not (decos & MEMOISERS):
+            continue
+        for c in walk_no_nested(f.node):
+            if isinstance(c, ast.Call):
+                t = c.func
+                nm = t.attr if isinstance(t, ast.Attribute) else (t.id if isinstance(t, ast.Name) else None)
+                if nm in STATE_READERS:
+                    bad.append((f, c, nm, sorted(decos & MEMOISERS)[0]))
+    ctx.count("functions_scanned_for_memoised_state", n)
+    ctx.decide(not bad, "C15.cache", "package", loc_of(bad[0][0], bad[0][1]) if bad else "src/aspire",
+               "no memoised function reads the namespace's default dtype / device (run-time state of torch and jax)",
+               (f"{bad[0][0].ident} is memoised ({bad[0][3]}) and calls {bad[0][2]}(): the first answer is frozen, so after torch.set_default_dtype / jax_enable_x64 "
+                "sample sets built without an explicit dtype are cast to the old width") if bad else "")
 
 
 def _rank(m, n):
@@ -333,6 +368,8 @@ MUTANTS = [
     M("array_to_namespace into numpy always", _S, "x = asarray(x, self.xp, **kwargs)", "x = asarray(x, np, **kwargs)", "C15.a2n"),
 ]
 MUTANTS += [
+    M("namespace default dtype memoised", _S, "            self.dtype = default_dtype(self.xp)\n", "            self.dtype = _cached_default(self.xp)\n", "C15.cache",
+      more=[("@dataclass\nclass BaseSamples:", "import functools\n\n\n@functools.lru_cache(maxsize=None)\ndef _cached_default(xp):\n    return default_dtype(xp)\n\n\n@dataclass\nclass BaseSamples:")]),
     M("conversion keeps the likelihood only when it is unset", _S, "log_likelihood=asarray(self.log_likelihood, xp, dtype=dtype)\n            if self.log_likelihood is not None\n            else None,", "log_likelihood=asarray(self.log_likelihood, xp, dtype=dtype)\n            if self.log_likelihood is None\n            else None,", "C15.carry"),
     M("from_samples loses the likelihood", _S, "x=samples.x,\n            log_likelihood=samples.log_likelihood,\n            log_prior=samples.log_prior,", "x=samples.x,\n            log_prior=samples.log_prior,", "C15.carry"),
     M("to_numpy ignores a requested dtype", _S, "if dtype is not None:\n            dtype = resolve_dtype(dtype, np)\n        else:\n            dtype = convert_dtype(self.dtype, np)", "if dtype is None:\n            dtype = resolve_dtype(dtype, np)\n        else:\n            dtype = convert_dtype(self.dtype, np)", "C15.dtype"),
